@@ -55,6 +55,12 @@ class EnvState:
                 a.add_effect(W.expr(fe), W.expr(v))
             p.add_action(a)
         self.problem = p
+        # a second objects set for quantifier removal: every other object (the objects set is an ARGUMENT of the call)
+        p2 = Problem("p2", W.env)
+        for i, o in enumerate(W.objects.values()):
+            if i % 2 == 0:
+                p2.add_object(o)
+        self.problem2 = p2
         self.psimp = Simplifier(W.env, p)
         self.rmq = ExpressionQuantifiersRemover(W.env)
 
@@ -94,7 +100,7 @@ class EnvState:
             elif k == "ifx":
                 r = sorted(render(x) for x in env.interpreted_functions_extractor.get(e))
             elif k == "rmq":
-                r = render(self.rmq.remove_quantifiers(e, self.problem))
+                r = render(self.rmq.remove_quantifiers(e, self.problem2 if op.get("objs") == "half" else self.problem))
             elif k == "pkind":
                 # the kind computation of a problem whose goal is e: runs the environment's
                 # simplifier and the linearity checker over the expression
@@ -348,6 +354,8 @@ class EnvHist(Engine):
             op = {"op": opk, "e": e}
             if opk == "subst":
                 op["map"] = sub_map(e)
+            if opk == "rmq" and ro.random() < 0.4:
+                op["objs"] = "half"
             return op
 
         def embed(e, kind):
